@@ -112,12 +112,26 @@ def replay_swv(cfg, m):
         dil = tuple(D)
     if max([abs(v) for v in xs + W + S + D]) > 12 or int(np.prod(xs)) > 5000:
         return dict(confirmed=False, note="model too large")
-    arr = np.arange(int(np.prod(xs)), dtype=float).reshape(xs)
-    if str(m.get("contiguous")) == "False" and arr.ndim >= 2:
-        arr = np.asfortranarray(arr)
+    # the caller's array, with the model's byte strides where it gives them (element type: bytes of the model's itemsize, so that
+    # strides need not be multiples of 8); it lives in the middle of a larger buffer so that a wrong view can be inspected safely
+    nbyte = ival(m, "nbyte", 8)
+    st = [ival(m, f"st{i}", None) for i in range(n)]
+    canon = [nbyte * int(np.prod(xs[i + 1 :])) for i in range(n)]
+    st = [c if v is None else v for v, c in zip(st, canon)]
+    if not (1 <= nbyte <= 16) or max([abs(v) for v in st] + [0]) > 4096:
+        return dict(confirmed=False, note="model too large")
+    lo = sum(min(0, s_ * (x - 1)) for s_, x in zip(st, xs) if x > 0)
+    hi = sum(max(0, s_ * (x - 1)) for s_, x in zip(st, xs) if x > 0) + nbyte
+    margin = 1 << 16
+    buf = (np.arange(2 * margin + hi - lo, dtype=np.int64) % 250 + 1).astype(np.uint8)
+    elem = np.frombuffer(buf, dtype=f"S{nbyte}", count=1, offset=margin - lo)
+    arr = np.lib.stride_tricks.as_strided(elem, shape=tuple(xs), strides=tuple(st), writeable=False)
+    buf_lo = buf.__array_interface__["data"][0]
+    buf_hi = buf_lo + buf.nbytes
+    arr_lo, arr_hi = buf_lo + margin, buf_lo + margin + hi - lo
     lead = n - k
     accept = k <= n and all(w > 0 for w in W) and all(s > 0 for s in S) and all(W[i] <= xs[lead + i] for i in range(min(k, n))) and (dil is None or (all(d > 0 for d in D) and all(W[i] * D[i] <= xs[lead + i] for i in range(k))))
-    inp = dict(arr_shape=xs, window_shape=W, step=S if cfg["step"] == "seq" else S[0], dilation=dil)
+    inp = dict(arr_shape=xs, arr_strides=st, itemsize=nbyte, c_contiguous=bool(arr.flags["C_CONTIGUOUS"]), window_shape=W, step=S if cfg["step"] == "seq" else S[0], dilation=dil)
     try:
         v = sliding_window_view(arr, tuple(W), tuple(S) if cfg["step"] == "seq" else S[0], dil)
     except Exception as e:
@@ -131,11 +145,17 @@ def replay_swv(cfg, m):
         return dict(confirmed=True, input=inp, observed=f"shape {v.shape}", required=f"shape {exp_shape}")
     if v.flags.writeable:
         return dict(confirmed=True, input=inp, observed="view is writeable", required="read-only view")
+    if v.size:
+        v0 = v.__array_interface__["data"][0]
+        v_lo = v0 + sum(min(0, s_ * (x - 1)) for s_, x in zip(v.strides, v.shape))
+        v_hi = v0 + sum(max(0, s_ * (x - 1)) for s_, x in zip(v.strides, v.shape)) + nbyte
+        if buf_lo <= v0 < buf_hi and not (arr_lo <= v_lo and v_hi <= arr_hi):
+            return dict(confirmed=True, input=inp, observed=f"the view spans bytes [{v_lo - arr_lo}, {v_hi - arr_lo}) relative to arr, which occupies [0, {arr_hi - arr_lo})", required="never exposes memory outside arr")
     for g in itertools.product(*[range(e) for e in exp_shape[:k]]):
         for w_ in itertools.product(*[range(e) for e in W]):
             for nn in itertools.product(*[range(e) for e in xs[:lead]]):
                 idx = tuple(g[i] * S[i] + w_[i] * D[i] for i in range(k))
-                if any(idx[i] >= xs[lead + i] for i in range(k)) or v[g + nn + w_] != arr[nn + idx]:
+                if any(idx[i] >= xs[lead + i] for i in range(k)) or v[g + nn + w_].tobytes() != arr[nn + idx].tobytes():
                     return dict(confirmed=True, input=inp, observed=f"out[{g},{nn},{w_}] != arr[{nn},{idx}]", required="out[g,n,w]=arr[n,g*step+w*dilation] inside arr")
     return dict(confirmed=False, input=inp)
 
